@@ -285,6 +285,8 @@ type wcase struct {
 	Ck  []int `json:"ck"`
 	Ph  []int `json:"ph"`
 	Pt  []int `json:"pt"`
+	// nts / ntsapi: class of the body of placeholder i ("zero", "first", "last", "rand"; absent = zero)
+	Phb []string `json:"phb"`
 	// ntsapi
 	Api string `json:"api"`
 	Cl  int    `json:"cl"`
@@ -701,6 +703,39 @@ func runNts(src string, pkt *nts.Packet, in ntsIn, key []byte, rng *rand.Rand) *
 	return r
 }
 
+// phBody is a placeholder body of class cl (Wire.tla PhBody): all zero, a single non-zero byte at the
+// first / last position, or seeded random bytes with at least one non-zero byte.
+func phBody(n int, cl string, rng *rand.Rand) []byte {
+	b := make([]byte, n)
+	if n == 0 {
+		return b
+	}
+	switch cl {
+	case "", "zero":
+	case "first":
+		b[0] = byte(1 + rng.Intn(255))
+	case "last":
+		b[n-1] = byte(1 + rng.Intn(255))
+	case "rand":
+		for i := range b {
+			b[i] = byte(rng.Intn(256))
+		}
+		if bytes.Equal(b, make([]byte, n)) {
+			b[rng.Intn(n)] = byte(1 + rng.Intn(255))
+		}
+	default:
+		panic("unknown placeholder body class " + cl)
+	}
+	return b
+}
+
+func phClass(c wcase, i int) string {
+	if i < len(c.Phb) {
+		return c.Phb[i]
+	}
+	return "zero"
+}
+
 func ntsFromShape(c wcase, rng *rand.Rand) (*nts.Packet, ntsIn, []byte) {
 	key := randBytes(rng, 32)
 	in := ntsIn{Uid: []int{}, Ck: [][]int{}, Ph: [][]int{}, Pt: [][]int{}}
@@ -726,9 +761,9 @@ func ntsFromShape(c wcase, rng *rand.Rand) (*nts.Packet, ntsIn, []byte) {
 		pkt.Cookies = append(pkt.Cookies, x)
 		in.Ck = append(in.Ck, ints(ck))
 	}
-	for _, n := range c.Ph {
+	for i, n := range c.Ph {
 		var x nts.CookiePlaceholder
-		x.Cookie = make([]byte, n)
+		x.Cookie = phBody(n, phClass(c, i), rng)
 		pkt.CookiePlaceholders = append(pkt.CookiePlaceholders, x)
 		in.Ph = append(in.Ph, ints(x.Cookie))
 	}
@@ -746,8 +781,15 @@ func ntsFromAPI(c wcase, rng *rand.Rand) (*nts.Packet, ntsIn, []byte) {
 		pkt, id := nts.NewRequestPacket(ntske.Data{C2sKey: key, S2cKey: randBytes(rng, 32), Cookie: cks})
 		in.Uid = ints(id)
 		in.Ck = [][]int{ints(cks[0])}
+		// NewRequestPacket fills the placeholders with zeros; the bodies belong to the caller
+		// (CookiePlaceholder.Cookie is exported and packed unchanged): contents by class
 		for i := c.N; i < 8; i++ {
-			in.Ph = append(in.Ph, ints(make([]byte, c.Cl)))
+			j := i - c.N
+			body := phBody(c.Cl, phClass(c, j), rng)
+			if j < len(pkt.CookiePlaceholders) && phClass(c, j) != "zero" {
+				pkt.CookiePlaceholders[j].Cookie = body
+			}
+			in.Ph = append(in.Ph, ints(body))
 		}
 		return &pkt, in, key
 	}
